@@ -12,6 +12,11 @@
     [bitmap.Slice/Rank64] [ws; a; b; trailing; j] -> Rank64(r, IndexRank64(r, trailing), j) with r = Slice(ws, a, b): [count, bit]
     [bitmap.Slice/NextOne] [ws; a; b; j] -> NextOne(r, j, b-a);  [bitmap.Slice/PrevOne] likewise
     [bitmap.Join/Slice] [vs; w; k; m] -> Slice(Join(vs, w), k*w, m*w); must be Join of elements k..m-1
+    [bitmap.JoinSlice/scribble] [steps] -> one session: step [0; vs; w] = Join(vs, w), step [1; ws; from; to] =
+                                           Slice(ws, from, to); the caller OVERWRITES every returned bitmap with junk after
+                                           rendering it (it owns the result), so a result that shares memory with a later
+                                           result (a package-level zero page, a cached buffer) shows up in the later step;
+                                           observed = the list of results; every step is judged like the single call
     [bitmap.Fmt] [kind; is_slice; vals] -> the string Fmt returns (byte list), P = panic; kind 0..7 = int8, uint8,
                                            int16, uint16, int32, uint32, int64, uint64, 8 = string (not an integer) *)
 From Coq Require Import ZArith List Bool String.
@@ -33,6 +38,38 @@ Definition with_flag (o : option (list Z)) : val :=
 
 Definition vopt_z (o : option Z) : val := match o with Some z => VZ z | None => VPanic end.
 Definition vopt_zs (o : option (list Z)) : val := match o with Some r => vzs r | None => VPanic end.
+
+(** one step of a scribble session: the model is pure, so a step is just the single call *)
+Definition scr_run (st : val) : val :=
+  match st with
+  | VL [VZ 0; vs; VZ w] =>
+      match as_zs vs with
+      | Some vs => if words_okb vs && width_okb w then vopt_zs (Join vs w) else VBad
+      | None => VBad end
+  | VL [VZ 1; ws; VZ from; VZ to] =>
+      match as_zs ws with
+      | Some ws => if words_okb ws && slice_dom ws from to then vopt_zs (Slice ws from to) else VBad
+      | None => VBad end
+  | _ => VBad
+  end.
+
+Definition scr_ok (st obs : val) : bool :=
+  match st, as_zs obs with
+  | VL [VZ 0; vs; VZ w], Some r =>
+      match as_zs vs with Some vs => spec_Join_ok vs w r | None => false end
+  | VL [VZ 1; ws; VZ from; VZ to], Some r =>
+      match as_zs ws with Some ws => spec_Slice_ok ws from to r | None => false end
+  | _, _ => false
+  end.
+
+Definition is_vbad (v : val) : bool := match v with VBad => true | _ => false end.
+
+Fixpoint all2 (f : val -> val -> bool) (l m : list val) : bool :=
+  match l, m with
+  | [], [] => true
+  | x :: l', y :: m' => f x y && all2 f l' m'
+  | _, _ => false
+  end.
 
 Definition ops_C14 : list opdef := [
   {| op_name := "bitmap.Join";
@@ -184,6 +221,13 @@ Definition ops_C14 : list opdef := [
            | Some vs, Some r => spec_Join_ok (sublist vs k m) w r
            | _, _ => false end
        | _ => false end |};
+  {| op_name := "bitmap.JoinSlice/scribble";
+     op_run := fun a => match a with
+       | [VL steps] => let rs := map scr_run steps in if existsb is_vbad rs then VBad else VL rs
+       | _ => VBad end;
+     op_spec := fun a obs => match a, obs with
+       | [VL steps], VL rs => all2 scr_ok steps rs
+       | _, _ => false end |};
   {| op_name := "bitmap.Fmt";
      op_run := fun a => match a with
        | [VZ kind; VZ sl; vals] => match as_zs vals with
